@@ -519,8 +519,10 @@ def itermergesort(sources, key, header, missing, reverse):
                 for i, fi in enumerate(flds):
                     try:
                         outrow[ofs.index(fi)] = _row[i]
-                    except IndexError:
-                        pass  # be relaxed about short rows
+                    except (IndexError, ValueError):
+                        # be relaxed about short rows, and about fields that
+                        # are not in the output header
+                        pass
                 yield tuple(outrow)
 
     # wrap all iterators to standardise fields
